@@ -33,6 +33,21 @@ def oracle(ctx, specs, k, rnd, dups):
         if not conforms(v, Ts):
             return ctx.fail("C04/value-not-admitted", [specs, k, "via-store"],
                             f"value {s} not a member of {show(Ts)} merged from the decoded per-value types (k={k})")
+    if vals.has_repeated_container(specs):
+        # the same values with aliasing: equal container sub-values are ONE object referenced from several positions
+        memo = {}
+        vsh = [vals.build_shared(s, memo) for s in specs]
+        ctx.label("aliased-presentation")
+        try:
+            Tsh = tinfer.infer(vsh, k)
+        except Exception as e:
+            return ctx.fail(f"C04/inference-raises:{type(e).__name__}", [specs, k, "aliased"], repr(e))
+        for s, v in zip(specs, vsh):
+            if not conforms(v, Tsh):
+                return ctx.fail("C04/value-not-admitted", [specs, k, "aliased"], f"value {s} (equal sub-containers shared as one object) not a member of inferred {show(Tsh)} (k={k})")
+        if canon(Tsh) != canon(T):
+            return ctx.fail("C04/order-or-multiplicity-dependent", [specs, k, "aliased"],
+                            f"{show(T)} for {specs} but {show(Tsh)} when equal sub-containers are one shared object (k={k})")
     if len(specs) >= 1:
         idx = list(range(len(specs)))
         rnd.shuffle(idx)
@@ -66,7 +81,7 @@ def run(ctx):
 def replay(ctx, case):
     specs, k = case[0], case[1]
     oracle(ctx, specs, k, random.Random(0), [2, 1, 3, 1, 2, 1, 1, 2])
-    if len(case) > 2:
+    if len(case) > 2 and not isinstance(case[2], str):
         T = tinfer.infer([vals.build(s) for s in specs], k)
         T2 = tinfer.infer([vals.build(s) for s in case[2]], k)
         if canon(T) != canon(T2):
